@@ -5,7 +5,7 @@
    only: slot s of row i of the buffer holds cell (i, s + shift(i-1)) of the specification matrix. *)
 From Coq Require Import ZArith Bool Lia List.
 From DV Require Import Prelude Cost Grid Dtw DtwSpec DtwProps Engines CWps CFill CExpand CFillSim CLang CDistTie CDistSpec
-  CTraceSpec CWpsCanon CWpsKernel CWpsSpec.
+  CTraceSpec CWpsCanon CWpsKernel CWpsValue CWpsSpec.
 From DVGen Require Import Gen_cwps Gen_cfill Gen_cwpsk.
 Import ListNotations.
 Open Scope Z_scope.
@@ -93,5 +93,49 @@ Proof.
   unfold rowf in HH. fold W in HH. rewrite HH.
   pose proof (shift_nonneg l1 l2 window ltac:(lia) ltac:(lia) Hwin (Z.of_nat i - 1)) as Hsh.
   rewrite wps_matrix_Mfun; [reflexivity| unfold sr; lia | unfold sc; lia].
+Qed.
+(* run for its value (return_dtw = true), with or without the final sqrt pass (keep_int_repr), dtw_wps_shift being
+   the regenerated function (Gen_cwps.c_wps_shift through CWps.cw_shift): the value returned IS the DTW value of the
+   specification - the minimum over the psi-relaxed end cells, found by the corner read or the two scans - and the
+   array holds the specification matrix in the representation asked for *)
+Theorem c_wps_kernel_returns_the_dtw_value ce ced1 ced2 wps0 keep idist :
+  let W := cw_width l1 l2 window in
+  Z.of_nat (length wps0) = (l1 + 1) * W -> (idist =? 1) = false ->
+  exists wps',
+    c_dtw_warping_paths_ndim ce (cw_shift l1 l2 window) ced1 ced2 wps0 (concat s1) l1 (concat s2) l2 true keep false (Z.of_nat d)
+      ((l1 + 1) * W) (c_parts_ldiff l1 l2) (c_parts_ldiffr l1 l2 (c_parts_ldiff l1 l2))
+      (c_parts_ldiffc l1 l2 (c_parts_ldiff l1 l2)) (c_parts_window l1 l2 window) W ((l1 + 1) * W)
+      (c_parts_ri1 l1 (c_parts_overlap_left l1 (c_parts_ldiffr l1 l2 (c_parts_ldiff l1 l2)) (c_parts_window l1 l2 window))
+                      (c_parts_overlap_right l1 (c_parts_ldiffr l1 l2 (c_parts_ldiff l1 l2)) (c_parts_window l1 l2 window)))
+      (c_parts_ri2 l1 (c_parts_overlap_left l1 (c_parts_ldiffr l1 l2 (c_parts_ldiff l1 l2)) (c_parts_window l1 l2 window)))
+      (c_parts_ri3 l1 (c_parts_overlap_left l1 (c_parts_ldiffr l1 l2 (c_parts_ldiff l1 l2)) (c_parts_window l1 l2 window))
+                      (c_parts_overlap_right l1 (c_parts_ldiffr l1 l2 (c_parts_ldiff l1 l2)) (c_parts_window l1 l2 window)))
+      (adj_max_step usq) Inf (Fin (adj_penalty usq)) idist false (Z.of_nat (psi_1b usq)) (Z.of_nat (psi_1e usq))
+      (Z.of_nat (psi_2b usq)) (Z.of_nat (psi_2e usq)) false
+    = (RPlain (sq_repr keep (dtw_value usq s1 s2)), wps', true) /\
+    Z.of_nat (length wps') = (l1 + 1) * W /\
+    forall (i : nat) (s : Z), Z.of_nat i <= l1 -> 0 <= s < W ->
+      s + cw_shift l1 l2 window (Z.of_nat i - 1) <= l2 ->
+      (s + cw_shift l1 l2 window (Z.of_nat i - 1) = 0 -> Z.of_nat i <= cw_ri2 l1 l2 window) ->
+      aget wps' (Z.of_nat i * W + s)
+      = sq_repr keep (mget (wps_matrix usq s1 s2) i (Z.to_nat (s + cw_shift l1 l2 window (Z.of_nat i - 1)))).
+Proof.
+  intros W HL Hid.
+  destruct (c_wps_kernel_runs l1 l2 window ltac:(lia) ltac:(lia) Hwin (cell usq s1 s2) (adj_penalty usq)
+              (psi_1b usq) (psi_2b usq) cell_outside_band (Z.of_nat d) (concat s1) (concat s2) (adj_max_step usq)
+              cell_on_band ltac:(lia) ltac:(lia) ce (cw_shift l1 l2 window) ced1 ced2 wps0 true keep false idist
+              (Z.of_nat (psi_1e usq)) (Z.of_nat (psi_2e usq)) HL Hid)
+    as (wD & E & HLen & Hrows).
+  destruct (tail_value l1 l2 window ltac:(lia) ltac:(lia) Hwin (cell usq s1 s2) (adj_penalty usq) (psi_1b usq) (psi_2b usq)
+              cell_outside_band wD HLen Hrows keep (psi_1e usq) (psi_2e usq)) as (wps' & ET & HLT & HcT).
+  exists wps'. fold W in ET, E, HLen, HcT. rewrite E, ET. split.
+  - f_equal. f_equal. f_equal. f_equal. rewrite dtw_value_Mfun. unfold end_value, ecands, end_cands, sr, sc, Mfun.
+    rewrite !Nat2Z.id. reflexivity.
+  - split; [lia|]. intros i s Hi Hs Hcol Hb. pose proof (W_pos l1 l2 window ltac:(lia) ltac:(lia) Hwin) as HW. fold W in HW.
+    rewrite HcT by nia. f_equal.
+    pose proof (Hrows i ltac:(lia)) as HH. unfold holds in HH. specialize (HH s Hs Hcol Hb).
+    unfold rowf in HH. fold W in HH. rewrite HH.
+    pose proof (shift_nonneg l1 l2 window ltac:(lia) ltac:(lia) Hwin (Z.of_nat i - 1)) as Hsh.
+    rewrite wps_matrix_Mfun; [reflexivity| unfold sr; lia | unfold sc; lia].
 Qed.
 End Final.
